@@ -47,6 +47,9 @@ pub fn insert_atoms(z: &ZooLang) -> Vec<Vec<u8>> {
     let mut atoms: Vec<Vec<u8>> = z.lexemes.iter().map(|s| s.as_bytes().to_vec()).collect();
     // (16 line breaks: the row field of an inline leaf's padding is 4 bits wide)
     for extra in ["\n".as_bytes(), "é".as_bytes(), b"\xff", b"\n\n\n\n\n\n\n\n\n\n\n\n\n\n\n\n"] { if !atoms.iter().any(|a| a == extra) { atoms.push(extra.to_vec()); } }
+    // byte-wise typing of a multi-byte character (lead byte first, continuation byte later, not next to the token in front):
+    // the intermediate text is invalid UTF-8, and the token before it has looked at the whole truncated sequence
+    if z.lexemes.iter().any(|l| !l.is_ascii()) { for extra in [&b"\xc3"[..], &b"\xa9"[..]] { atoms.push(extra.to_vec()); } }
     atoms
 }
 
